@@ -50,14 +50,14 @@ prop("C01", "Completed means delivered", "exploration", "e2e",
 
 prop("C02", "Terminal statuses are final", "exploration", "fsmx",
      "stateful property testing (rapid): before/after equality of all accessors, raw persisted bytes and publication count after every generated stimulus on a terminated channel; plus one complete enumeration of terminal status x event method x reopen",
-     [hx("TestC02_Fsmx", 4500, 128000), hx("TestC02_FsmxTable", 2, 4, shards=1), hx("TestC02_Mgrx", 3600, 128000)],
+     [hx("TestC02_Fsmx", 4500, 128000), hx("TestC02_FsmxTable", 2, 4, shards=1), hx("TestC02_Mgrx", 3600, 128000), hx("TestC13_Migrate", 1200, 16000)],
      ["side effects outside the channel record (a cancel message, a transport close on the id) are not part of the compared state"],
      "generated-stimulus search over terminated channels; the finite table (3 terminal statuses x 2 roles x 28 event methods x {same process, reopened}) is enumerated completely, everything else is sampled",
      TRUST, exhaustive_note="TestC02_FsmxTable enumerates terminal status x role x every public event method x {same process, after reopen} completely")
 
 prop("C03", "No success without both parties", "exploration", "fsmx",
      "model-based stateful property testing (rapid) against a two-facts lifecycle reference model plus per-event frame conditions",
-     [hx("TestC03_Fsmx", 9000, 192000), hx("TestC03_Mgrx", 4500, 128000)],
+     [hx("TestC03_Fsmx", 9000, 192000), hx("TestC03_Mgrx", 4500, 128000), hx("TestC13_Migrate", 1200, 16000)],
      ["histories are role consistent (Open only as first event; initiator and responder alphabets kept apart), as produced by the manager",
       "lifecycle events are not raced against the asynchronous CleanupComplete; every ending is settled before the next event"],
      "generated-history search: every applied event is checked against a reference model written from the statement (two completion facts and the responder's last word) and against frame conditions; not exhaustive",
